@@ -995,12 +995,14 @@ fn strip_vis_and_attrs_sig(sig: &mut syn::Signature, drop_generics: &[String], k
 // extract-method refactoring) is INLINED at its call sites when that is semantics-preserving by
 // construction: no `return`, no `?`, no loop in its body, not recursive, receiver (if any) is the
 // caller's own `self`. The caller is then verified against the helper's real code.
-struct HelperBody { params: Vec<(syn::Pat, syn::Type)>, block: syn::Block, has_self: bool }
-struct InlineScan { bad: bool, own: String }
+struct HelperBody { params: Vec<(syn::Pat, syn::Type)>, block: syn::Block, has_self: bool, early_exit: bool }
+struct InlineScan { bad: bool, early_exit: bool, own: String }
 impl<'ast> syn::visit::Visit<'ast> for InlineScan {
     fn visit_expr(&mut self, e: &'ast Expr) {
         match e {
-            Expr::Return(_) | Expr::Try(_) | Expr::While(_) | Expr::Loop(_) | Expr::ForLoop(_) | Expr::Break(_) | Expr::Continue(_) => self.bad = true,
+            // `return` / `?` leave the HELPER: equivalent after inlining only where the call is the caller's own result (tail position)
+            Expr::Return(_) | Expr::Try(_) => self.early_exit = true,
+            Expr::While(_) | Expr::Loop(_) | Expr::ForLoop(_) | Expr::Break(_) | Expr::Continue(_) | Expr::Closure(_) => self.bad = true,
             Expr::Call(c) => { if let Expr::Path(p) = &*c.func { if p.path.segments.last().map(|x| x.ident == self.own).unwrap_or(false) { self.bad = true; } } }
             Expr::MethodCall(m) => { if m.method == self.own { self.bad = true; } }
             Expr::Macro(m) => { let n = m.mac.path.segments.last().map(|x| x.ident.to_string()).unwrap_or_default(); if n == "panic" || n == "unreachable" || n == "todo" || n == "unimplemented" { } }
@@ -1015,7 +1017,7 @@ fn collect_inlinable(items: &[syn::Item], impl_of: Option<&String>, skip: &std::
     let mut consider = |sig: &syn::Signature, block: &syn::Block, out: &mut BTreeMap<String, HelperBody>| {
         let name = sig.ident.to_string();
         if skip.contains(&name) { return; }
-        let mut sc = InlineScan { bad: false, own: name.clone() };
+        let mut sc = InlineScan { bad: false, early_exit: false, own: name.clone() };
         syn::visit::Visit::visit_block(&mut sc, block);
         if sc.bad { return; }
         let mut params = Vec::new();
@@ -1027,7 +1029,7 @@ fn collect_inlinable(items: &[syn::Item], impl_of: Option<&String>, skip: &std::
             }
         }
         if out.contains_key(&name) { dup.insert(name.clone()); }
-        out.insert(name, HelperBody { params, block: block.clone(), has_self });
+        out.insert(name, HelperBody { params, block: block.clone(), has_self, early_exit: sc.early_exit });
     };
     for it in items {
         match it {
@@ -1046,11 +1048,12 @@ fn collect_inlinable(items: &[syn::Item], impl_of: Option<&String>, skip: &std::
     for d in dup { out.remove(&d); }
     out
 }
-struct Inliner<'a> { helpers: &'a BTreeMap<String, HelperBody>, inlined: Vec<String>, n: usize }
+struct Inliner<'a> { helpers: &'a BTreeMap<String, HelperBody>, inlined: Vec<String>, n: usize, tail: bool }
 impl<'a> Inliner<'a> {
     fn build(&mut self, name: &str, args: Vec<Expr>) -> Option<Expr> {
         let h = self.helpers.get(name)?;
         if h.params.len() != args.len() { return None; }
+        if h.early_exit && !self.tail { return None; }
         let k = self.n; self.n += 1;
         let mut stmts: Vec<Stmt> = Vec::new();
         // arguments are evaluated in the caller's scope, in order, before any parameter is bound
@@ -1070,9 +1073,26 @@ impl<'a> Inliner<'a> {
         Some(syn::parse_quote!({ #(#stmts)* #body }))
     }
 }
-impl<'a> VisitMut for Inliner<'a> {
-    fn visit_expr_mut(&mut self, e: &mut Expr) {
-        visit_mut::visit_expr_mut(self, e);
+impl<'a> Inliner<'a> {
+    // the expressions whose value IS the function's result
+    fn tail_block(&mut self, b: &mut Block) {
+        if let Some(Stmt::Expr(e, None)) = b.stmts.last_mut() { self.tail_expr(e); }
+    }
+    fn tail_expr(&mut self, e: &mut Expr) {
+        match e {
+            Expr::If(i) => {
+                self.tail_block(&mut i.then_branch);
+                if let Some((_, el)) = &mut i.else_branch { self.tail_expr(el); }
+            }
+            Expr::Block(b) => self.tail_block(&mut b.block),
+            Expr::Match(m) => { for a in m.arms.iter_mut() { self.tail_expr(&mut a.body); } }
+            Expr::Paren(p) => self.tail_expr(&mut p.expr),
+            Expr::Await(a) => self.tail_expr(&mut a.base),
+            Expr::Call(_) | Expr::MethodCall(_) => { let was = self.tail; self.tail = true; self.try_inline(e); self.tail = was; }
+            _ => {}
+        }
+    }
+    fn try_inline(&mut self, e: &mut Expr) {
         let mut repl: Option<Expr> = None;
         match e {
             Expr::Call(c) => {
@@ -1097,6 +1117,12 @@ impl<'a> VisitMut for Inliner<'a> {
             _ => {}
         }
         if let Some(r) = repl { *e = r; }
+    }
+}
+impl<'a> VisitMut for Inliner<'a> {
+    fn visit_expr_mut(&mut self, e: &mut Expr) {
+        visit_mut::visit_expr_mut(self, e);
+        self.try_inline(e);
     }
 }
 
@@ -1295,8 +1321,10 @@ fn emit_target(ctx: &mut Ctx, unit: &Unit, t: &Target) -> Emitted {
                 for (_, ty) in h.params.iter_mut() { lw2.visit_type_mut(ty); }
             }
             for _ in 0..3 {
-                let mut il = Inliner { helpers: &helpers, inlined: Vec::new(), n: inlined_helpers.len() * 10 };
+                let mut il = Inliner { helpers: &helpers, inlined: Vec::new(), n: inlined_helpers.len() * 10, tail: false };
                 il.visit_block_mut(&mut block);
+                // helpers with `return` / `?`: only where the call is the function's own result (and the target is a whole function)
+                if t.from.is_none() { il.tail_block(&mut block); }
                 if il.inlined.is_empty() { break; }
                 inlined_helpers.extend(il.inlined);
             }
